@@ -193,7 +193,7 @@ impl State {
     }
 
     /// crash image of the current contents, stamped with the harness clock (schedule x crash)
-    fn snapshot(&mut self, label: String) {
+    pub fn snapshot(&mut self, label: String) {
         if let Some(clock) = self.removal_clock {
             let img: Image = self.files.iter().map(|(p, d)| (p.clone(), lock(&d.bytes).clone())).collect();
             let t = clock.load(Ordering::SeqCst);
